@@ -12,8 +12,17 @@ SetOf(q) == {q[i] : i \in DOMAIN q}
 PairsOf(q) == {<<q[i][1], <<q[i][2][1], q[i][2][2]>>>> : i \in DOMAIN q}
 RuleOf(r) == [h |-> r.h, ht |-> r.ht, op |-> r.op, w |-> <<r.w[1], r.w[2]>>, atom |-> r.atom, ann |-> r.ann]
 Expected(c) == TModel({RuleOf(c.rules[i]) : i \in DOMAIN c.rules}, PairsOf(c.tfacts), {}, c.now, 6)
+\* Databases with overlapping intervals of one atom (C05): the operators' meaning is documented for
+\* coalesced facts only, so such a case is judged for order-independence alone: every presentation
+\* (clause and fact order, store kind, deterministic order, repetition) must give the same stores.
+Overlap(c) == "overlap" \in DOMAIN c /\ c.overlap
+Inconsistent(c, i) ==
+  /\ c.variants[i].outcome = "ok"
+  /\ \E j \in 1..(i - 1) : c.variants[j].outcome = "ok"
+        /\ (ToJson(c.variants[j].got) # ToJson(c.variants[i].got) \/ ToJson(c.variants[j].tgot) # ToJson(c.variants[i].tgot))
 Verdict(c, v) ==
   IF v.outcome # "ok" THEN (IF v.outcome \in {"eval_err", "panic"} THEN "EVAL_FAILURE" ELSE "fine")
+  ELSE IF Overlap(c) THEN "fine"
   ELSE LET e == Expected(c) IN
        IF SetOf(v.got) # e[1] THEN "FACTS_MISMATCH"
        ELSE IF PairsOf(v.tgot) # e[2] THEN "TEMPORAL_FACTS_MISMATCH" ELSE "fine"
@@ -22,7 +31,8 @@ Next == /\ l <= Len(Trace) /\ l' = l + 1
         /\ LET c == Trace[l] IN
            /\ PrintT(<<"CLASS", c.id, "temporal">>)
            /\ \A i \in DOMAIN c.variants :
-                Verdict(c, c.variants[i]) = "fine"
-                \/ PrintT(<<"MISMATCH", c.id, i, Verdict(c, c.variants[i]), ToJson(Expected(c))>>)
+                LET v == IF Inconsistent(c, i) THEN "INCONSISTENT" ELSE Verdict(c, c.variants[i]) IN
+                v = "fine"
+                \/ PrintT(<<"MISMATCH", c.id, i, v, IF Overlap(c) THEN "null" ELSE ToJson(Expected(c))>>)
 Accepted == l = Len(Trace) + 1 => PrintT(<<"CONSUMED", Len(Trace)>>)
 =============================================================================
